@@ -199,3 +199,20 @@ M("c17.failed-scenarios-not-reset-per-feature-dup", "C17", RR, "        # -- RES
   "        # -- RESET:\n        assert True")
 M("c17.location-collector-first-line-only", "C17", RU, "        for line in selected_lines:\n            more_scenarios = line_database.select_scenarios_by_line(line)\n            selected_scenarios.update(more_scenarios)",
   "        for line in selected_lines[:1]:\n            more_scenarios = line_database.select_scenarios_by_line(line)\n            selected_scenarios.update(more_scenarios)")
+
+# ---- C18 -------------------------------------------------------------------
+CAP = "behave/capture.py"
+M("c18.stop-capture-noop-for-stderr", "C18", CAP, "            if self.old_stderr:\n                sys.stderr = self.old_stderr\n                self.old_stderr = None\n            assert sys.stderr is not self.stderr_capture",
+  "            if self.old_stderr and False:\n                sys.stderr = self.old_stderr\n                self.old_stderr = None")
+M("c18.setup-capture-reuses-buffers", "C18", CAP, "        if self.config.stdout_capture:\n            self.stdout_capture = StringIO()\n            context.stdout_capture = self.stdout_capture",
+  "        if self.config.stdout_capture:\n            self.stdout_capture = self.stdout_capture or StringIO()\n            context.stdout_capture = self.stdout_capture")
+M("c18.stop-capture-only-when-passed", "C18", MOD, "        if capture:\n            runner.stop_capture()\n\n        # flesh out the failure with details",
+  "        if capture and self.status is Status.passed:\n            runner.stop_capture()\n\n        # flesh out the failure with details")
+M("c18.teardown-capture-removed", "C18", MOD, "        runner.teardown_capture()\n        return failed", "        return failed")
+M("c18.log-level-not-restored", "C18", "behave/log_capture.py", "            root_logger.setLevel(self.old_level)\n            self.old_level = None", "            self.old_level = None")
+M("c18.capture-started-after-before-step-hook", "C18", MOD, "        if capture:\n            runner.start_capture()\n\n        skip_step_untested = False\n        runner.run_hook(\"before_step\", runner.context, self)",
+  "        skip_step_untested = False\n        runner.run_hook(\"before_step\", runner.context, self)\n        if capture:\n            runner.start_capture()\n")
+M("c18.report-from-previous-buffers", "C18", MOD, "                self.captured = runner.capture_controller.captured\n                error2 = self.captured.make_report()",
+  "                error2 = self.captured.make_report()\n                self.captured = runner.capture_controller.captured")
+M("c18.ki-in-hook-not-restored", "C18", RUN, "                    self.stop_capture()\n                    self.teardown_capture()\n                    failed_count += 1", "                    failed_count += 1")
+M("c18.stderr-capture-follows-stdout-switch", "C18", CAP, "        if self.config.stderr_capture:\n            # -- REPLACE ONLY: In non-capturing mode.\n            if not self.old_stderr:", "        if self.config.stdout_capture:\n            # -- REPLACE ONLY: In non-capturing mode.\n            if not self.old_stderr:")
